@@ -107,7 +107,8 @@ func C01BoldyrevaNew[
 	return out
 }
 
-// C01BoldyrevaSign: every member of quorum produces its partial signature (the protocol is non-interactive: this is
+// C01BoldyrevaSign: (shards are expected to be CBOR-decoded copies, outsidePM a CBOR-decoded public material; nil =
+// decode one here.) Every member of quorum produces its partial signature (the protocol is non-interactive: this is
 // its only API), then an outside aggregator built from CBOR-decoded public material combines them and, with
 // twoAggregators, so does the first quorum member with its own public material. For every listed subset the outside aggregator is additionally offered the partial
 // signatures of that subset only.
@@ -115,7 +116,7 @@ func C01BoldyrevaSign[
 	PK curves.PairingFriendlyPoint[PK, PKFE, SG, SGFE, E, S], PKFE algebra.FieldElement[PKFE],
 	SG curves.PairingFriendlyPoint[SG, SGFE, PK, PKFE, E, S], SGFE algebra.FieldElement[SGFE],
 	E algebra.MultiplicativeGroupElement[E], S algebra.PrimeFieldElement[S],
-](v C01BLS[PK, PKFE, SG, SGFE, E, S], shards map[ID]*boldyreva02.Shard[PK, PKFE, SG, SGFE, E, S], quorum []ID, message []byte, alg bls.RogueKeyPreventionAlgorithm, seed int64, label string, subsets [][]ID, twoAggregators bool) (*C01Out[*bls.Signature[SG, SGFE, PK, PKFE, E, S]], []error) {
+](v C01BLS[PK, PKFE, SG, SGFE, E, S], shards map[ID]*boldyreva02.Shard[PK, PKFE, SG, SGFE, E, S], quorum []ID, message []byte, alg bls.RogueKeyPreventionAlgorithm, seed int64, label string, subsets [][]ID, outsidePM *boldyreva02.PublicMaterial[PK, PKFE, SG, SGFE, E, S], twoAggregators bool) (*C01Out[*bls.Signature[SG, SGFE, PK, PKFE, E, S]], []error) {
 	type psig = *boldyreva02.PartialSignature[SG, SGFE, PK, PKFE, E, S]
 	out := c01NewOut[*bls.Signature[SG, SGFE, PK, PKFE, E, S]]()
 	quorum = Sorted(quorum)
@@ -126,7 +127,7 @@ func C01BoldyrevaSign[
 	ctxs := Contexts(quorum, KeySeed(seed), "c01/boldyreva/"+label)
 	cs := map[ID]*bsigning.Cosigner[PK, PKFE, SG, SGFE, E, S]{}
 	for _, id := range quorum {
-		c, err := v.NewCosigner(ctxs[id], c01Wire(shards[id]), alg)
+		c, err := v.NewCosigner(ctxs[id], shards[id], alg)
 		if err != nil {
 			out.Errs[c01Party(id)+"/new"] = err
 			if out.Refused == nil {
@@ -152,12 +153,20 @@ func C01BoldyrevaSign[
 		}
 		ps[id] = p
 	}
+	// every partial signature goes over the wire once; all aggregators work on the decoded copies
+	wired := map[ID]psig{}
+	for _, id := range quorum {
+		wired[id] = c01Wire(ps[id])
+	}
 	collect := func(ids []ID) map[ID]psig {
 		m := map[ID]psig{}
 		for _, id := range ids {
-			m[id] = c01Wire(ps[id])
+			m[id] = wired[id]
 		}
 		return m
+	}
+	if outsidePM == nil {
+		outsidePM = c01Wire(shards[quorum[len(quorum)-1]].PublicKeyMaterial())
 	}
 	run := func(who string, pm *boldyreva02.PublicMaterial[PK, PKFE, SG, SGFE, E, S]) {
 		agg, err := v.NewAggregator(pm, alg)
@@ -172,7 +181,7 @@ func C01BoldyrevaSign[
 		}
 		out.Sigs[who] = sig
 	}
-	run(c01AggOutside, c01Wire(shards[quorum[len(quorum)-1]].PublicKeyMaterial()))
+	run(c01AggOutside, outsidePM)
 	if twoAggregators {
 		run(c01AggParty(quorum[0]), shards[quorum[0]].PublicKeyMaterial())
 	}
